@@ -307,6 +307,12 @@ def r08a(P, R):
                 # inventory cannot settle either way (string slicing by computed offsets is decided by R08-c)
                 R.undecided("R08-a", "unreviewed-bounds:" + skey, "new `%s` site on %s in %s: not in the panic table, range not decided" % (kind, what, p), loc=loc)
                 continue
+            if kind in ("unwrap", "expect") and p.startswith(PB) and what.split("#")[0] in ("from_str_radix", "parse", "from_u32", "from_digit", "to_digit"):
+                # a conversion of text the grammar has already delimited (hex digits of an escape, an integer literal): whether it can
+                # fail depends on the digit bound of the grammar rule behind it, which this inventory does not compute for a new site
+                R.undecided("R08-a", "unreviewed-conversion:" + skey, "new `%s` of %s in %s on grammar-delimited text: the bound the grammar puts on "
+                            "that text is not decided here" % (kind, what, p), loc=loc)
+                continue
             if kind in ("unwrap", "expect", "unwrap_err", "expect_err", "assert", "assert_eq", "assert_ne") and not _input_keyed(P.fns[p], node):
                 # `stack.last().expect("not empty")`, `slot.take().expect("refilled")`, `assert_eq!(a.len(), b.len())`: the unwrapped
                 # value does not come from a look-up keyed by document/schema data or a parse of input text, so this is a local
